@@ -91,8 +91,15 @@ func (cq *commitQueue) acquireItem() bool {
 			return true
 		}
 		if atomic.LoadUint32(&cq.closed) == 1 {
-			if atomic.LoadInt64(&cq.queueLen) == 0 && atomic.LoadInt64(&cq.inflight) == 0 {
-				return false
+			// inflight must be read before queueLen: a writer registers in inflight
+			// before it tests closed and leaves only after queueLen and items account
+			// for its push, so once inflight is zero every accepted request is visible
+			// in queueLen. Testing queueLen first let the worker exit between a late
+			// writer's push and its inflight decrement, stranding that request.
+			if atomic.LoadInt64(&cq.inflight) == 0 {
+				if atomic.LoadInt64(&cq.queueLen) == 0 {
+					return false
+				}
 			}
 			time.Sleep(100 * time.Microsecond)
 			continue
